@@ -108,8 +108,9 @@ int kalign_essential_input_check(struct msa *msa, int exit_on_error)
                                         e--;
                                 }
                         }
+                        /* the spare, pre-allocated records stay with the msa  */
                         for(int i = msa->numseq; i < msa->alloc_numseq;i++){
-                                 tmp[i] = NULL;
+                                 tmp[i] = msa->sequences[i];
                         }
 
                         MFREE(msa->sequences);
